@@ -332,6 +332,11 @@ def check(prog, run):
                                                                   and n.func.value.func.attr == "setdefault")):
                 rg.instance("%s: %s" % (f.qualname, norm_stmt(n, 60)))
 
+    # ---- U1 every iteration variable is used (merging loops over extension blocks)
+    from .. import itervars
+    itervars.check(prog, run, "U1", ["py_gql.sdl"], 40,
+                   "members contributed by all but one extension block are lost or repeated")
+
     # ---- X1 only library errors
     r = run.rule("X1", "may-raise (explicit raises through resolved calls) of build_schema / extend_schema contains only "
                        "library errors (GraphQLError family); no exception object is constructed without being raised", 2)
